@@ -94,12 +94,6 @@ def check_text(text, M, case, idx=0, full=True):
                                         "envelopes": short(envs, 200)}, case)
         mech = observe.F1 if text in opened else None
         if st != "ok":
-            if envs.get("origin", "").startswith("token_scanner.py:__init__"):
-                try:
-                    if os.path.exists(text):
-                        mech = observe.F1
-                except Exception:
-                    pass
             M.violation("G1.enum", {"what": "exception escaped GherkinEvents.enum", **envs, "options": opts}, case, mechanism=mech)
         else:
             for e in envs:
